@@ -181,3 +181,69 @@ Proof.
   intros k Hk Hn; rewrite (B k Hn).
   apply nth_error_repeat; unfold pool_dump; cbn [d_ents]; exact Hk.
 Qed.
+
+(** ** The entity column of the component-less table: row (old length + j) holds the j-th alive
+    entity of the dump; the rows that were there stay (a new world has none). *)
+From Ark Require Import Proofs.TableProofs.
+
+Lemma load_rows_ents (pes : list ent) alive : forall t idx t' idx',
+  tbl_ok t -> t_len t + length alive < Nat.pow 2 31 ->
+  load_rows pes alive t idx = Some (t', idx') ->
+  tbl_ok t' /\
+  (forall j i, nth_error alive j = Some i ->
+     exists e, @nth_error ent pes i = Some e /\ row_ent t' (t_len t + j) = e) /\
+  (forall r, r < t_len t -> row_ent t' r = row_ent t r).
+Proof.
+  induction alive as [|i rest IH]; intros t idx t' idx' Hok Hb; cbn [load_rows].
+  - intros E; injection E as <- <-; split; [exact Hok|]; split; [intros [|j] i H; discriminate|reflexivity].
+  - destruct (nth_error pes i) as [e|] eqn:He; [|discriminate].
+    destruct (Nat.ltb (fst e) (length idx)); [|discriminate].
+    cbn [length] in Hb.
+    pose proof (tbl_add_spec t e Hok ltac:(lia)) as Hs.
+    pose proof (tbl_add_ok t e Hok ltac:(lia)) as Hok1.
+    destruct (tbl_add t e) as [row t1]; cbn [snd] in Hok1.
+    destruct Hs as (-> & Hl1 & Hrow & _ & _ & Hold & _).
+    intros E.
+    destruct (IH t1 _ t' idx' Hok1 ltac:(lia) E) as (Hok' & A & B).
+    split; [exact Hok'|]; split.
+    + intros [|j] k Hk; cbn [nth_error] in Hk.
+      * injection Hk as <-; exists e; split; [exact He|].
+        rewrite Nat.add_0_r, B by lia; exact Hrow.
+      * destruct (A j k Hk) as [e' [H1 H2]]; exists e'; split; [exact H1|].
+        rewrite <- H2; f_equal; lia.
+    + intros r Hr; rewrite B by lia; apply Hold; exact Hr.
+Qed.
+
+Lemma w_load_rows s t t' t0 :
+  has_reserved (w_pool s) ->
+  nth_error (w_tables t) 0 = Some t0 -> tbl_ok t0 ->
+  t_len t0 + length (alive_ids s) < Nat.pow 2 31 ->
+  w_load_entities (w_dump_entities s) t = Some t' ->
+  exists t1, nth_error (w_tables t') 0 = Some t1 /\ tbl_ok t1 /\
+    t_len t1 = t_len t0 + length (alive_ids s) /\
+    (forall j i, nth_error (alive_ids s) j = Some i ->
+       exists e, nth_error (pe (w_pool s)) i = Some e /\ row_ent t1 (t_len t0 + j) = e) /\
+    (forall r, r < t_len t0 -> row_ent t1 r = row_ent t0 r).
+Proof.
+  intros Hres Ht0 Hok0 Hb; unfold w_load_entities, w_dump_entities.
+  destruct (is_locked t); [discriminate|].
+  destruct (pool_load (w_pool t) (pool_dump (w_pool s))) as [p|] eqn:Hp; [|discriminate].
+  assert (Ep : p = w_pool s).
+  { unfold pool_load in Hp.
+    destruct (orb _ _); [discriminate|].
+    replace (Nat.ltb 0 (length (d_ents (pool_dump (w_pool s))))) with true in Hp
+      by (symmetry; apply Nat.ltb_lt; unfold pool_dump, has_reserved, reserved in *; cbn [d_ents]; lia).
+    injection Hp as <-; destruct (w_pool s); reflexivity. }
+  subst p; rewrite Ht0.
+  destruct (load_rows _ _ _ _) as [[t1 idx]|] eqn:Hr; [|discriminate].
+  intros E; injection E as <-.
+  assert (Hb' : t_len (tbl_extend t0 (length (alive_ids s))) + length (alive_ids s) < Nat.pow 2 31)
+    by (rewrite tbl_extend_len; exact Hb).
+  destruct (tbl_extend_facts t0 (length (alive_ids s)) Hok0 ltac:(lia)) as (Hok1 & _ & _ & _ & Hrows & _).
+  pose proof (load_rows_len _ _ _ _ _ _ Hr) as [Hl _].
+  destruct (load_rows_ents _ _ _ _ _ _ Hok1 Hb' Hr) as (Hok' & A & B).
+  rewrite tbl_extend_len in *.
+  exists t1; split; [cbn; destruct (w_tables t); [discriminate|reflexivity]|].
+  split; [exact Hok'|]; split; [exact Hl|]; split; [exact A|].
+  intros r Hr'; rewrite B by exact Hr'; apply Hrows; exact Hr'.
+Qed.
